@@ -3,9 +3,10 @@
 # Isolated lane: repo copy /scratch/mut/repo (git worktree of /repo), harness copy /scratch/mut/harness,
 # target /scratch/mut/target, verif root /scratch/mut/root (evidence/replays go there, never to /verif).
 set -u
-exec 9>/scratch/mut/.lock; flock 9   # one lane job at a time
+L="${MUTLANE_DIR:-/scratch/mut}"
+exec 9>$L/.lock; flock 9   # one job per lane at a time
 PATCH="$1"; ID="$2"; TIER="${3:-quick}"
-L=/scratch/mut
+
 bin="$(echo "$ID" | tr 'A-Z' 'a-z')"
 cd $L/repo || exit 2
 git checkout -q -- . && git clean -fdq -- sdk c2pa_c_ffi cli >/dev/null 2>&1
